@@ -1,6 +1,8 @@
 import Drv.Util
 import Drv.Gmm
 import Drv.KMeans
+import Drv.GmmState
+import Drv.Hdf5
 open Lean Drv
 
 def dispatch (j : Json) : Json :=
@@ -12,6 +14,9 @@ def dispatch (j : Json) : Json :=
   | "stats_add" => opStatsAdd j
   | "em_stop" => opEmStop j
   | "kmeans_iter" => opKMeansIter j
+  | "gmm_ops" => opGmmOps j
+  | "h5_machine" => opH5Machine j
+  | "h5_stats" => opH5Stats j
   | "kmeans_dist" => opKMeansDist j
   | "kmeans_vw" => opKMeansVW j
   | op => obj [("err", Json.str s!"bad-op {op}")]
